@@ -1391,7 +1391,7 @@ func c14Explore(c *Ctx, env *c14Env, u c14Unit, bound int) {
 	if first != nil {
 		for i := 0; i < 2; i++ {
 			if o := c14Run(env, sc, explore.Replay(first, nil)).observation(); o != firstObs {
-				c.Error("replay divergence in %s: %s vs %s", sc.Name, c14Clip(firstObs), c14Clip(o))
+				c.Unstable("replay divergence in %s: %s vs %s", sc.Name, c14Clip(firstObs), c14Clip(o))
 			}
 		}
 	}
